@@ -36,6 +36,8 @@ Good(c) ==
       [] c.fn = "part_len_last" -> Eq(Add(c.res, Mul(c.idx, c.part)), c.size)
       [] c.fn = "part_len_mid" -> Eq(c.res, c.part)
       [] c.fn = "adjust" -> Eq(c.res, Clamp(FirstFit(c.size, c.part, 0)))
+      \* the multipart decision (part carries the threshold): res = 1 <=> size >= threshold
+      [] c.fn = "multipart" -> IF Le(c.part, c.size) THEN c.res = One ELSE c.res = Zero
       [] c.fn = "adjust_nosize" -> Eq(c.res, Clamp(c.part))
       [] OTHER -> FALSE
 
